@@ -35,9 +35,14 @@ RULE = ("op sequences over a small name/value alphabet with case variants, valid
         "names are legal tokens incl. letters directly after digits/_/./!/~/' etc. (P3P, X_Forwarded_For): every case "
         "pattern of every short token over a tchar alphabet is probed against every other spelling of the same name "
         "(add/set/del/get/get_list/in/parse_line); "
+        "copy cases: a history, a copy (copy()/copy.copy/HTTPHeaders(h)/deepcopy/pickle), a history on one object, then one on the other; "
+        "parse cases in both validation modes (bytes / _chars_are_bytes=False with non-latin1 and control characters); "
         "non-trivial = at least one name holds >=2 values or a cached read precedes a mutation; distinct by canonical JSON")
 EXHAUSTIVE = {"quick": False, "thorough": False}
 CLAUSE_CAVEATS = [
+    "copies are independent: the theorems (copy_equal, copy_behaves_as_multimap) describe each object's behaviour; that the two Python objects share no mutable state cannot be stated in the immutable model and rests on the copy cases of the correspondence stream",
+    "line parsing: Spec.parseLine shares its lexical helpers (stripEol, splitColon, stripWs, isToken, isFieldValue, appendToLast) with the model, so for the line grammar refines_multimap relates near-identical definitions; the independent check of the grammar is the Python reference reader (_ref_parse) applied to HTTPHeaders.parse on the parse cases, not a theorem",
+    "the _chars_are_bytes=False validation branch (multipart part headers) is outside Op/run and hence outside the theorems; it is covered by correspondence (parseU) and the reference reader only",
 ]
 CLAUSES = {
     "behaves like an insertion-ordered multimap keyed by case-insensitive name":
@@ -271,7 +276,14 @@ def gen_cases(rng, tier):
                    "via": rng.choice(["copy", "copy", "copy.copy", "ctor", "deepcopy", "pickle"])}
         else:
             text = "".join(_rand_line(rng, names) + rng.choice(["", "\n", "\r\n"]) for _ in range(rng.randint(0, 6)))
-            yield {"kind": "parse", "text": text}
+            if rng.random() < 0.35:
+                # the multipart/form-data mode: any non-control character is a legal value character
+                if rng.random() < 0.6:
+                    text += "%s: %s%s" % (rng.choice(names), rng.choice(["Ā", "中 x", "a\x7fb", "x\x01", "é", "\x80\xff", "f\x0bg", "t\tu"]),
+                                          rng.choice(["", "\r\n", "\n", "\r\n \u4e2d\r\n", "\n\tĀ \n", "\n \x7f"]))
+                yield {"kind": "parse", "text": text, "bytes": False}
+            else:
+                yield {"kind": "parse", "text": text}
 
 
 def _exc(e):
@@ -442,7 +454,8 @@ def run_impl(case):
         return {"outs": outs, **extra}
     if case["kind"] == "parse":
         try:
-            h = HTTPHeaders.parse(case["text"])
+            h = HTTPHeaders.parse(case["text"]) if case.get("bytes", True) else \
+                HTTPHeaders.parse(case["text"], _chars_are_bytes=False)
             return {"pairs": [list(p) for p in h.get_all()], "keys": list(h)}
         except Exception as e:
             return {"pairs": _exc(e)}
@@ -470,7 +483,7 @@ def model_requests(case, impl):
     if case["kind"] == "ops":
         return [line(ID, "run", [[atom(o[0])] + o[1:] for o in case["ops"]])]
     if case["kind"] == "parse":
-        return [line(ID, "parse", case["text"])]
+        return [line(ID, "parse" if case.get("bytes", True) else "parseU", case["text"])]
     return [line(ID, "copyrun", _copy_arg(case))]
 
 
@@ -509,6 +522,42 @@ def impl_view(case, impl):
     return [impl["copy"], impl["outs"], impl["outs2"]]
 
 
+_FORBIDDEN = re.compile(r"[\x00-\x08\x0a-\x1f\x7f]")
+
+
+def _ref_parse(text, as_bytes):
+    """Reference reader for a whole header block, written from RFC 9112 §5 / the docstrings, not from the code:
+    LF-terminated lines (an optional CR before the LF belongs to the terminator; an unterminated last line is taken
+    as is), empty lines ignored, `name ":" OWS value OWS` field lines, obs-fold lines (leading SP/HTAB) extend the
+    value of the previous field line by one SP + the stripped text.  Names are tokens, compared case-insensitively;
+    values are field-values (as_bytes) or any text without control characters (multipart part headers).
+    -> [[lower-cased name, [values]], …] in order of first appearance, or "HTTPInputError"."""
+    pieces = text.split("\n")
+    lines = [p[:-1] if p.endswith("\r") else p for p in pieces[:-1]] + [pieces[-1]]
+    ok_value = (lambda v: FIELD_VALUE.match(v) is not None) if as_bytes else (lambda v: not _FORBIDDEN.search(v))
+    fields = []        # (lower name, value) per field line, obs-folds merged
+    for ln in lines:
+        if ln == "":
+            continue
+        if ln[0] in " \t":
+            if not fields:
+                return "HTTPInputError"
+            part = ln.strip(" \t")
+            if not ok_value(part):
+                return "HTTPInputError"
+            fields[-1][1] += " " + part
+            continue
+        name, colon, value = ln.partition(":")
+        value = value.strip(" \t")
+        if not colon or not TOKEN.match(name) or not ok_value(value):
+            return "HTTPInputError"
+        fields.append([name.lower(), value])
+    out = {}
+    for k, v in fields:
+        out.setdefault(k, []).append(v)
+    return [[k, vs] for k, vs in out.items()]
+
+
 def _lines_keep_lf(text):
     """HTTPHeaders.parse feeds parse_line one line at a time, each with its LF, the rest without"""
     pieces = text.split("\n")
@@ -519,6 +568,8 @@ def spec_requests(case, impl):
     if case["kind"] == "ops":
         return [line(ID, "spec", [[atom(o[0])] + o[1:] for o in case["ops"]])]
     if case["kind"] == "parse":
+        if not case.get("bytes", True):
+            return []       # the Lean multimap validates values as bytes; this mode is judged by _ref_parse only
         # parse(text) = the multimap after parse_line on every line (first error wins)
         return [line(ID, "spec", [[atom("parseLine"), l] for l in _lines_keep_lf(case["text"])]
                      + [[atom("getAll")], [atom("keys")]])]
@@ -588,6 +639,20 @@ def spec_violation(case, impl, replies):
     if case["kind"] == "parse":
         if isinstance(impl["pairs"], str) and impl["pairs"].startswith("Uncaught"):
             return "HTTPHeaders.parse raised %s" % impl["pairs"]
+        # (1) an independent batch reader of the header block (shares nothing with the Lean model/Spec)
+        ref = _ref_parse(case["text"], case.get("bytes", True))
+        if isinstance(ref, str) or isinstance(impl["pairs"], str):
+            if ref != impl["pairs"]:
+                return "reference reader: want %r, HTTPHeaders.parse gave %r" % (ref, impl["pairs"])
+        else:
+            got = {}
+            for k, v in impl["pairs"]:
+                got.setdefault(k.lower(), []).append(v)
+            if [[k, vs] for k, vs in got.items()] != ref or [k.lower() for k in impl.get("keys", [])] != [k for k, _ in ref]:
+                return "reference reader: want %r, HTTPHeaders.parse gave %r" % (ref, impl["pairs"])
+        if not case.get("bytes", True):
+            return None
+        # (2) the Lean multimap, line by line
         outs = _py(replies[0])
         errs = [o for o in outs[:-2] if o != "U"]
         want = errs[0] if errs else outs[-2]
@@ -613,6 +678,9 @@ def nontrivial(case, impl):
 
 def stats(case, impl):
     out = ["kind:" + case["kind"] + ("-sweep" if case.get("sweep") else "")]
+    if case["kind"] == "parse":
+        out += ["parse-mode:" + ("bytes" if case.get("bytes", True) else "chars"),
+                "parse:" + (impl["pairs"] if isinstance(impl["pairs"], str) else "ok")]
     if case["kind"] == "copy":
         out += ["copy-via:" + case.get("via", "copy"), "copy-mutate:" + case["mutate"],
                 "copy:" + ("raised" if isinstance(impl["copy"], str) else "ok")]
